@@ -645,5 +645,9 @@ KEEP_AGENTS = [
     ('R10-2', 'DIFF', 'R_C10_2.diff', None, ALL, 'if-let chain with returns -> Option combinators (or_else / unwrap_or_else), insert loop -> extend over iterator map, De Morgan + guard clause, temporary introduced: SafetyDistances::min_distance now l'),
     ('R10-3', 'DIFF', 'R_C10_3.diff', None, ALL, 'for loops with if+push -> iterator chains (enumerate/zip/filter/map/extend), index loop -> iterator, nested if -> Option::filter, range bound replaces a condition: RobotBody::detect_collisions_with_sk'),
     ('R10-4', 'DIFF', 'R_C10_4.diff', None, ALL, 'extract helper function, if/else-if on enum -> exhaustive match, Option->Vec via map_or_else, temporaries removed, iter()+cast -> into_iter()+usize::from: The repeated `forward_with_joint_poses(..).ma'),
+    ('R08-1', 'DIFF', 'R_C08_1.diff', None, ALL, 'iterator chains -> explicit loops with early return; mutable reassignments -> immutable temporaries with if-expression; merged duplicate branches (guard clause + continue): src/constraints.rs: Constra'),
+    ('R08-2', 'DIFF', 'R_C08_2.diff', None, ALL, 'match -> if-let / Option::map_or; filter-into-new-Vec -> Vec::retain in place; if/else -> early return guard; deferred-init let + if/else statement -> if-expression; nested call -> named temporary: sr'),
+    ('R08-3', 'DIFF', 'R_C08_3.diff', None, ALL, 'extract helper method for duplicated tail; index loops -> iterators (iter_mut + zip, for-in over reference): src/kinematics_impl.rs: the identical tail of inverse_continuing and inverse_continuing_5do'),
+    ('R08-4', 'DIFF', 'R_C08_4.diff', None, ALL, 'extract helper methods in the wrappers; for_each closure -> for loop; temporaries removed: src/parallelogram.rs: the four copies of the post-processing `solutions.iter_mut().for_each(|x| x[coupled] +='),
 ]
 KEEP += KEEP_AGENTS
